@@ -28,6 +28,7 @@ from .cfg import CFG, Node, FactDB, canon_fact, explore, node_effects
 from .model import AnalysisError, Repo
 
 STOP = object()
+NOTNONE = "__vt_notnone__"  # env marker: bound to a freshly built tuple/list (not None, truthy), content not tracked
 UNKNOWN = "__vt_unknown__"  # env marker: a stipulated constant path was re-assigned on this path
 _OKTYPES = (int, bool, str, bytes, type(None), tuple)
 
@@ -145,7 +146,7 @@ def explore_consts(
     def full(env):
         d = dict(consts)
         d.update(env)
-        for k in [k for k, v in d.items() if v is UNKNOWN or v == UNKNOWN]:
+        for k in [k for k, v in d.items() if isinstance(v, str) and v in (UNKNOWN, NOTNONE)]:
             del d[k]
         return d
 
@@ -168,7 +169,12 @@ def explore_consts(
                     else:
                         env.pop(name, None)
                 except q.NotFoldable:
-                    env.pop(name, None)
+                    if isinstance(st.value, (ast.Tuple, ast.List)) and st.value.elts:
+                        env[name] = NOTNONE
+                    elif isinstance(st.value, ast.Name) and env.get(st.value.id) == NOTNONE:
+                        env[name] = NOTNONE
+                    else:
+                        env.pop(name, None)
                 done = True
             elif isinstance(st, ast.AnnAssign) and isinstance(st.target, ast.Name) and st.value is not None:
                 name = st.target.id
@@ -227,10 +233,22 @@ def explore_consts(
         env_t, asm_t, u = val
         if n.kind == "test" and kind in ("true", "false"):
             env = full(dict(env_t))
-            try:
-                r = xfold(n.ast, env)
-                if bool(r) != (kind == "true"):
+            raw = dict(env_t)
+            nn = None
+            t_, p_ = _canon(n, True)
+            if t_.endswith(" is None") and raw.get(t_[: -len(" is None")]) == NOTNONE:
+                nn = not p_  # `x is None` is False / `x is not None` is True for a freshly built tuple
+            elif raw.get(t_) == NOTNONE:
+                nn = p_
+            if nn is not None:
+                if nn != (kind == "true"):
                     return None
+                r = None
+            try:
+                if nn is None:
+                    r = xfold(n.ast, env)
+                    if bool(r) != (kind == "true"):
+                        return None
             except q.NotFoldable:
                 if asm_t:
                     t, pol = _canon(n, kind == "true")
@@ -398,6 +416,8 @@ def frame_transfer(read_fn: str = "self._read_bytes", mask_fn: str = "_websocket
         # list-of-chunks representation: b"".join(buffer)
         if isinstance(e, ast.Call) and isinstance(e.func, ast.Attribute) and e.func.attr == "join" and isinstance(e.func.value, ast.Constant) and e.func.value.value == b"" and len(e.args) == 1 and q.dotted(e.args[0]) == BUF:
             return "assembled" if u.buf == "extended" else "stale"
+        if isinstance(e, ast.Tuple):
+            return ("tuple",) + tuple(arg_view(x, env, u) for x in e.elts)
         if isinstance(e, ast.BinOp) and isinstance(e.op, ast.Add):
             ta, tb = expr_tag(e.left, u, env), expr_tag(e.right, u, env)
             for t1, other in ((ta, e.right), (tb, e.left)):
@@ -654,3 +674,15 @@ def buffer_model(kind: str, nbytes: int, nchunks: int = 2):
         per = nbytes // nchunks
         return tuple([bytes(per)] * (nchunks - 1) + [bytes(nbytes - per * (nchunks - 1))])
     raise AnalysisError("no constant model for a buffer of kind %r" % kind)
+
+
+def handle_args(c: ast.Call, env: Dict[str, object], u) -> Tuple[object, object]:
+    """(opcode view, data view) of a ``self._handle_message(...)`` call, also for ``_handle_message(*pair)``."""
+    if len(c.args) == 1 and isinstance(c.args[0], ast.Starred):
+        t = _tag_get(u.tags, q.dotted(c.args[0].value) or "?")
+        if isinstance(t, tuple) and t and t[0] == "tuple" and len(t) == 3:
+            return t[1], t[2]
+        raise AnalysisError("_handle_message(*%s): the unpacked value is not a tracked (opcode, data) pair" % q.unparse(c.args[0].value))
+    if len(c.args) < 2 or any(isinstance(a, ast.Starred) for a in c.args[:2]):
+        raise AnalysisError("_handle_message call without (opcode, data)")
+    return arg_view(c.args[0], env, u), arg_view(c.args[1], env, u)
